@@ -159,6 +159,9 @@ class Validator:
                 for props in v:
                     if isinstance(props, dict):
                         if self.is_valid_for_version(props, version) is True:
+                            # an alternative can itself hold (a reference to) an object
+                            # with versioned keywords e.g. the inline SYMBOL of a STYLE
+                            self.get_versioned_properties(props, version)
                             valid_list.append(props)
                     else:
                         valid_list.append(props)
